@@ -99,7 +99,7 @@ func ruleScorchChannelDiscipline(r *Report, rule string) {
 		info := fi.Pkg.TypesInfo
 		for _, op := range chanOpsIn(fi) {
 			fs, ok := asFieldSel(info, op.chExpr)
-			if !ok || fs.Owner != "Scorch" || !chanFields[fs.Field.Name()] {
+			if !ok || fs.Owner != "Scorch" || !chanFields[canonFieldName(fs.Field)] {
 				continue
 			}
 			n++
@@ -108,14 +108,14 @@ func ruleScorchChannelDiscipline(r *Report, rule string) {
 			if op.send {
 				dir = "send"
 			}
-			construct := fi.Name + "/" + dir + "/" + fs.Field.Name()
+			construct := fi.Name + "/" + dir + "/" + canonFieldName(fs.Field)
 			if op.sel != nil {
 				hc, hd := selectHasCloseOrDefault(info, op.sel)
-				r.Ob(rule, construct, op.node.Pos(), hc || hd, "channel operation on s."+fs.Field.Name()+" is a select case but the select has neither a closeCh/ctx.Done case nor a default: it can block forever once the peer loop has exited")
+				r.Ob(rule, construct, op.node.Pos(), hc || hd, "channel operation on s."+canonFieldName(fs.Field)+" is a select case but the select has neither a closeCh/ctx.Done case nor a default: it can block forever once the peer loop has exited")
 			} else if why, ok := rendezvous[construct]; ok {
 				r.Allow(rule, construct, op.node.Pos(), why)
 			} else {
-				r.Ob(rule, construct, op.node.Pos(), false, "unselected "+dir+" on s."+fs.Field.Name()+": blocks forever if the peer loop is not receiving (no closeCh case)")
+				r.Ob(rule, construct, op.node.Pos(), false, "unselected "+dir+" on s."+canonFieldName(fs.Field)+": blocks forever if the peer loop is not receiving (no closeCh case)")
 			}
 			// K3b: not under rootLock
 			body := innermostFuncBody(fi.Decl, op.node)
@@ -126,7 +126,7 @@ func ruleScorchChannelDiscipline(r *Report, rule string) {
 			} else {
 				held = lockHeldAtMay(g, info, op.node, "rootLock")
 			}
-			r.Ob("K3-no-blocking-under-rootLock", construct, op.node.Pos(), !held, "blocking channel operation on s."+fs.Field.Name()+" while rootLock may be held: every loop needs rootLock to make progress, so the peer may never get to serve the channel")
+			r.Ob("K3-no-blocking-under-rootLock", construct, op.node.Pos(), !held, "blocking channel operation on s."+canonFieldName(fs.Field)+" while rootLock may be held: every loop needs rootLock to make progress, so the peer may never get to serve the channel")
 		}
 	}
 	if n < 12 {
